@@ -121,6 +121,9 @@ def _process_string_field_value(path: List[str], value: Any, current_type: Any, 
                 raise e
         return value
     elif token == 'O':
+        if value is None:
+            # Nothing to convert
+            return value
         return _process_string_field_value(
             path=path,
             value=value,
